@@ -410,7 +410,7 @@ pub fn judge_with_cursors(model: &Model, scn: &ReadScn, log: &RunLog, o: &JudgeO
                     }
                 }
             }
-            Op::SetPolicy(_) => {}
+            Op::SetPolicy(_) | Op::ShrinkSet(_) => {}
             Op::Restart(_) => {
                 if let Some((j, l, b)) = step.restarted {
                     origin = (l, b);
